@@ -98,6 +98,11 @@ def declaration_contracts(chk):
         "(defn f [] (print x) (global x))": "HySyntaxError",
         "(defn f [] (setv x 1) (global x))": "HySyntaxError",
         "(defn f [x] (nonlocal x))": "any-error",
+        "(defn f [] (let [y 1] (print x) (global x)))": "HySyntaxError",
+        "(defclass C [] (setv x 1) (global x))": "HySyntaxError",
+        "(defn f [] (let [y 1] (defclass C [] (defn m [self] (let [z 2] (setv x 1) (global x))))))": "HySyntaxError",
+        "(defn f [] (setv x 0) (defn g [] (print x) (nonlocal x)))": "HySyntaxError",
+        "(defn f [] (x) (global x))": "HySyntaxError",
         "(defn f [] (global x) (setv x 1))": "ok",
         "(defn f [] (defn g [] (nonlocal x) (setv x 1)) (setv x 0))": "ok",
         "(defn f [] (nonlocal x y))": "any-error",
@@ -107,7 +112,8 @@ def declaration_contracts(chk):
     for src, want in cases.items():
         got = compiles(src)
         ok = got == want or (want == "any-error" and got != "ok")
-        chk.ob(f"declare/{src} -> {want}", ok, "structural", "proved", detail=got)
+        chk.ob(f"declare/{src} -> {want}", ok, "structural", "proved", detail=got,
+               replay=None if ok else {"confirmed": True, "input": f"hy_compile of {src}, then CPython's compile", "observed": got, "expected": want})
     # a declaration of several names: each is resolved on its own (some bound by an enclosing let of the same function - nothing to
     # declare for those -, some by an enclosing function, some at module level)
     import types
